@@ -879,7 +879,7 @@ class Interp(object):
 
     def inplace(self, opname, a, b):
         if isinstance(a, ArrBase):
-            f = {'Add': sym.add, 'Sub': sym.sub, 'Mult': sym.mul, 'Div': sym.div}.get(opname)
+            f = {'Add': sym.add, 'Sub': sym.sub, 'Mult': sym.mul, 'Div': sym.div, 'Pow': sym.power}.get(opname)
             if f is None:
                 raise Unsupported('%s in-place %s on array' % (self.where, opname))
             if isinstance(b, Masked):
